@@ -44,8 +44,9 @@ impl Tf {
                     REC_ALPHA * x.powf(0.45) - (REC_ALPHA - 1.0)
                 }
             }
-            Tf::Adobe => x.powf(256.0 / 563.0),
-            Tf::P3Gamma => x.powf(1.0 / 2.6),
+            // pure power laws are extended to negative values by odd symmetry (as CSS Color 4 does)
+            Tf::Adobe => x.abs().powf(256.0 / 563.0).copysign(x),
+            Tf::P3Gamma => x.abs().powf(1.0 / 2.6).copysign(x),
             Tf::ProPhoto => {
                 if x < 1.0 / 512.0 {
                     16.0 * x
@@ -73,8 +74,8 @@ impl Tf {
                     ((y + (REC_ALPHA - 1.0)) / REC_ALPHA).powf(1.0 / 0.45)
                 }
             }
-            Tf::Adobe => y.powf(563.0 / 256.0),
-            Tf::P3Gamma => y.powf(2.6),
+            Tf::Adobe => y.abs().powf(563.0 / 256.0).copysign(y),
+            Tf::P3Gamma => y.abs().powf(2.6).copysign(y),
             Tf::ProPhoto => {
                 if y < 1.0 / 32.0 {
                     y / 16.0
